@@ -80,6 +80,29 @@ class Rec:
                     v["viol_fn_error"] = repr(e)
             self._keep(v)
         else:
+            # `unknown` on a disjunction: decide the disjuncts one by one (each is a smaller query);
+            # all unsat => the disjunction is unsat; any sat => a counterexample; otherwise inconclusive
+            if z3.is_expr(bad) and z3.is_or(bad) and bad.num_args() > 1:
+                rs = []
+                for ch in bad.children():
+                    rc = ctx.check(ch, timeout_ms=timeout_ms)
+                    rs.append(rc)
+                    if rc == "sat":
+                        m = ctx.last_model()
+                        v = {"label": label}
+                        if viol_fn is not None:
+                            try:
+                                v.update(viol_fn(m))
+                            except Exception as e:  # noqa
+                                v["viol_fn_error"] = repr(e)
+                        self._keep(v)
+                        return "sat"
+                    if rc != "unsat":
+                        break
+                if rs and all(x == "unsat" for x in rs) and len(rs) == bad.num_args():
+                    self.discharged += 1
+                    self.notes["unknown_resolved_by_splitting"] = self.notes.get("unknown_resolved_by_splitting", 0) + 1
+                    return "unsat"
             self.inconclusive += 1
         return r
 
